@@ -75,10 +75,16 @@ func paramDefault(p ParamSpec) any {
 		if p.Name == "pb" {
 			return 1000000.0 // seven digits: has to be written as 1000000, not with an exponent
 		}
+		if p.Name == "pc" {
+			return 1234567890.0 // ten significant digits: every one of them has to arrive
+		}
 		return 5.0
 	case "string":
 		return "dflt"
 	default:
+		if p.Name == "pc" {
+			return []any{16777217.0, 5.0} // the first integer that single precision cannot hold
+		}
 		if p.Name != "pa" {
 			return []any{2500000.0, 5.0, 5.0} // a seven-digit item as well
 		}
@@ -90,16 +96,16 @@ func paramSchema(p ParamSpec) M {
 	var s M
 	switch p.Kind {
 	case "integer":
-		s = M{"type": "integer", "maximum": 5000000.0}
+		s = M{"type": "integer", "maximum": 5000000000.0}
 	case "string":
 		s = M{"type": "string", "minLength": 1.0}
 	case "branchdefault":
 		// a default inside an alternative is the default of that alternative's values, not of the parameter:
 		// an absent parameter stays absent
-		return M{"oneOf": []any{M{"type": "integer", "default": 10.0, "maximum": 5000000.0}, M{"type": "boolean"}}}
+		return M{"oneOf": []any{M{"type": "integer", "default": 10.0, "maximum": 5000000000.0}, M{"type": "boolean"}}}
 	case "anyof":
 		// alternatives none of which reads arbitrary text
-		s = M{"anyOf": []any{M{"type": "integer", "maximum": 5000000.0}, M{"type": "boolean"}}}
+		s = M{"anyOf": []any{M{"type": "integer", "maximum": 5000000000.0}, M{"type": "boolean"}}}
 	default:
 		s = M{"type": "array", "items": M{"type": "integer"}}
 	}
